@@ -54,7 +54,7 @@ def judge(req, impl, f, prev, hi, i):
         # hash iteration order may leave different pre-states; then the pair says nothing about abs
         if prev and ' ## ' in prev and ' ## ' in other_prev and prev.split(' ## ', 1)[1] != other_prev.split(' ## ', 1)[1]:
             return None
-        if other != impl and vlib.cmp_line(req, impl, other) == 'mismatch':
+        if other != impl and vlib.cmp_line(req, impl, other, f[2] if len(f) > 2 else None) == 'mismatch':
             # path-valued results name the same location; the error payload is not compared
             return (other, 'the call with a respelled path differs (result or state) from the call with abs(path)')
     return None
